@@ -249,9 +249,10 @@ package protocol
 //@     invariant kv != nil && len(cookies) >= 1
 
 //@ func Cookie.ParseBytes(c, src) err
-//@   props C03
+//@   props C03, C17
 //@   witness src = "a=b; SameSite="
 //@   modifies *
+//@   assert @C17 before append: sameSlice(arg1, kv.key) || sameSlice(arg1, kv.value)
 
 // ---- C05: header serialisation cannot be used to inject lines ----
 
